@@ -22,7 +22,7 @@ TECHNIQUE = ("runtime monitoring of drawn artists: every figure returned by the 
 RULE = ("seeded datasets (x: 2-8 points, z: 1-14 numeric/str values, optional row/col dims, NaN/+-inf patterns incl. all-NaN series, "
         "multi-variable y, y_err/x_err/c variables, x as coordinate or data variable, a 2-D x with a row per line for the auto_* forms incl. square shapes) x plot kind (lineplot, scatter, histogram, "
         "heatmap, auto_lineplot, auto_scatter, auto_histogram, auto_heatmap) x options (colors, colormap, reverse, log norm, markers, lines, "
-        "legend/colorbar, error / colour variables with holes of their own, explicit vmin/vmax incl. 0, colour quantities whose minimum is exactly 0, log axes, zlabels, legend_reverse, legend_marker_alpha, spans, row/col grids); scatter colour variables on a logarithmic colour scale; distinct by (kind, shape, "
+        "legend/colorbar, error / colour variables with holes of their own, explicit vmin/vmax incl. 0, colour quantities whose minimum is exactly 0, log axes, zlabels, legend_reverse, legend_marker_alpha, spans, row/col grids); scatter colour variables on a logarithmic colour scale; series of 52-75 points with a glyph check; heat maps under a non-default rcParams pcolor.shading and with exactly one colour bar; colour maps given as Colormap objects; distinct by (kind, shape, "
         "options); non-trivial when >= 2 series or a 2-d mesh is drawn")
 ASSUMPTIONS = [
     "matplotlib backend only (Agg); artists are inspected, pixels are not",
